@@ -139,3 +139,93 @@ Example C01_example :
   map (fun m => (m_job m, m_tgt m)) (cluster (fst r)) = [(0, 1); (1, 1); (2, 1); (3, 0)] /\
   wf_graphb ex_diamond = true.
 Proof. vm_compute. split; reflexivity. Qed.
+
+(* ==== histories WITH refused run ids (Model/SchedFault.v: xrun over list xev;
+   TickFault k = a dispatch in which the k-th db.next() raises; the jobs not yet
+   turned into messages stay with the farm, `do` sets included) ==== *)
+From DV Require Import Model.SchedFault Proofs.SchedFaultInv.
+
+(* the release decision (todo -> doing), in EVERY history with or without
+   refused requests, at every dispatch (ordinary or with a refused request): a
+   unit is moved to executing only when no ancestor has its target or the
+   all-targets marker pending or executing (all-targets unit: ancestors have
+   nothing at all) *)
+Theorem C01_release_faults : forall c xs e x t, is_tick e ->
+  let s := xrun c (init c) xs in
+  let s' := fst (xstep c s e) in
+  In t (doing (getn (ns s') x)) -> ~ In t (doing (getn (ns s) x)) ->
+  forall a, In a (anc (gi c x)) ->
+    ~ In t (todo (getn (ns s') a)) /\ ~ In t (doing (getn (ns s') a)) /\
+    ~ In ALL (todo (getn (ns s') a)) /\ ~ In ALL (doing (getn (ns s') a)) /\
+    (t = ALL -> todo (getn (ns s') a) = [] /\ doing (getn (ns s') a) = []).
+Proof. exact tick_release_safe_faults. Qed.
+Print Assumptions C01_release_faults.
+
+(* the task messages.  fresh c h x t (Proofs/SchedFaultInv.v) = the history h
+   contains a dispatch (h = h1 ++ e :: h2, e a tick) that moved (x,t) from not
+   executing to executing, and right after that dispatch every ancestor of x had
+   neither t nor the all-targets marker pending or executing.
+   In every history, every task message made by the dispatch that ends it is
+   for a unit released under the C01 condition by THAT dispatch or by an EARLIER
+   one of the same history (whose run-id request was refused: the message is
+   then made from a job the farm kept).  PARTIAL with respect to C01_doing: the
+   condition held when the unit was released, not necessarily when the message
+   is made -- C01_doing_faults_refuted. *)
+Theorem C01_doing_faults_partial : forall c xs e, is_tick e ->
+  let s := xrun c (init c) xs in
+  let s' := fst (xstep c s e) in
+  active s = true ->
+  exists newms cl k,
+    Permutation cl (cluster s ++ newms) /\
+    k = Nat.min (length cl) (length (workers_sort (workers s))) /\
+    cluster s' = skipn k cl /\
+    inflight s' = inflight s ++ combine (map fst (firstn k (workers_sort (workers s)))) (firstn k cl) /\
+    forall m, In m newms ->
+      exists h1 e1 h2, xs ++ [e] = h1 ++ e1 :: h2 /\ is_tick e1 /\
+        let sb := xrun c (init c) h1 in
+        let sa := fst (xstep c sb e1) in
+        ~ In (m_tgt m) (doing (getn (ns sb) (m_job m))) /\ In (m_tgt m) (doing (getn (ns sa) (m_job m))) /\
+        forall a, In a (anc (gi c (m_job m))) ->
+          ~ In (m_tgt m) (todo (getn (ns sa) a)) /\ ~ In (m_tgt m) (doing (getn (ns sa) a)) /\
+          ~ In ALL (todo (getn (ns sa) a)) /\ ~ In ALL (doing (getn (ns sa) a)) /\
+          (m_tgt m = ALL -> todo (getn (ns sa) a) = [] /\ doing (getn (ns sa) a) = []).
+Proof.
+  intros c xs e T s s' A. destruct (tick_messages_fresh c xs e T A) as (newms & cl & k & P & Hk & C & F & M).
+  exists newms, cl, k. repeat (split; [assumption|]).
+  intros m Hm. destruct (M m Hm) as (_ & Fr & _). exact Fr.
+Qed.
+Print Assumptions C01_doing_faults_partial.
+
+(* REFUTED as a statement about the moment the message is made (candidate
+   finding, replayed on the real farm.dispatch by props/C04.py fault_witness):
+   chain a0 -> a1.  a1 is released for target 1 (a0 idle), the run-id request is
+   refused, a1 stays with the farm; a0 is requested for target 1; the next
+   dispatch releases a0 AND turns the kept a1 into a task message without
+   looking at its ancestors again: a1's message is handed to worker 1 while its
+   ancestor a0 has target 1 pending (before) / executing (after). *)
+Definition c01f_chain : cfg :=
+  {| gnodes := [ {| kids := [1]; anc := []; gfac := Task; lvl := 0; ins := [] |};
+                 {| kids := []; anc := [0]; gfac := Task; lvl := 1; ins := [0] |} ];
+     gfb := []; gtargets := [1] |}.
+Definition c01f_xs : list xev :=
+  [Ev (Reg 1 0 true); Ev (Org [1] None [1]); TickFault 1; Ev (Org [0] None [1])].
+Theorem C01_doing_faults_refuted :
+  let s := xrun c01f_chain (init c01f_chain) c01f_xs in
+  let s' := fst (xstep c01f_chain s (Ev Tick)) in
+  wf_graphb c01f_chain = true /\ active s = true /\ jobs s = [1] /\ inflight s = [] /\ cluster s = [] /\
+  inflight s' = [(1, {| m_job := 1; m_tgt := 1; m_rid := 1%Z; m_fac := Task |})] /\
+  In 0 (anc (gi c01f_chain 1)) /\
+  In 1 (todo (getn (ns s) 0)) /\ In 1 (doing (getn (ns s') 0)).
+Proof. vm_compute. repeat split; auto. Qed.
+Print Assumptions C01_doing_faults_refuted.
+
+(* non-vacuity (a history containing a refused request; the dispatch after it
+   makes the message of the kept job, which is fresh by the EARLIER dispatch) *)
+Example C01_faults_example :
+  let xs := [Ev (Reg 1 0 true); Ev (Org [1] None [1]); TickFault 1] in
+  let s := xrun c01f_chain (init c01f_chain) xs in
+  let s' := fst (xstep c01f_chain s (Ev Tick)) in
+  is_tick (Ev Tick) /\ is_tick (TickFault 1) /\ active s = true /\ jobs s = [1] /\
+  do_ (getn (ns s) 1) = [1] /\ doing (getn (ns s) 1) = [1] /\
+  inflight s' = [(1, {| m_job := 1; m_tgt := 1; m_rid := 1%Z; m_fac := Task |})].
+Proof. vm_compute. repeat split; auto. Qed.
